@@ -72,17 +72,20 @@ FINDINGS = [
      'what': 'attr_list: entity/inline tag inside the braces makes the raw-HTML placeholder an attribute name (_wzxhzdk:0_)',
      'witness': {'text': '*x*{ &amp; }', 'extensions': ['attr_list']}},
     {'id': 'F-C10-4', 'property': 'C10', 'status': 'open',
-     'what': 'PROPOSED (quantifier: backslash-backtick adjacency): escaped backtick next to a code span inside emphasis leaves STX 96 ETX in <code>',
+     'what': '(region the quantifier excludes: backslash-backtick adjacency) escaped backtick next to a code span inside emphasis leaves STX 96 ETX in <code>',
      'witness': {'text': '***`\\``***', 'extensions': []}},
     {'id': 'F-C10-5', 'property': 'C10', 'status': 'open',
-     'what': 'PROPOSED (quantifier: raw HTML): inline raw HTML enclosing a link with marked-up text leaves the inner placeholder in the output',
+     'what': '(region the quantifier excludes: raw HTML) inline raw HTML enclosing a link with marked-up text leaves the inner placeholder in the output',
      'witness': {'text': 'a <!-- [*x*](u) --> b', 'extensions': []}},
     {'id': 'F-C10-6', 'property': 'C10', 'status': 'open',
      'what': 'abbr: a digits-only abbreviation is wrapped where it occurs inside a placeholder (code point of an escaped character, raw-HTML stash index); the placeholder is then never restored',
      'witness': {'text': 'a \\* b 42\n\n*[42]: the answer', 'extensions': ['abbr']}},
     {'id': 'F-C10-7', 'property': 'C10', 'status': 'open',
-     'what': 'PROPOSED: after a stray `&#` (html.parser two-phase parse, cf. F-C04-1/2) an unterminated end tag directly before a fenced block swallows the head of the fence placeholder: `zxhzdk:0` + ETX in the output, code block lost',
+     'what': '(region the quantifier excludes: raw HTML) after a stray `&#` (html.parser two-phase parse, cf. F-C04-1/2) an unterminated end tag directly before a fenced block swallows the head of the fence placeholder: `zxhzdk:0` + ETX in the output, code block lost',
      'witness': {'text': 's\n&#;</s\n```\nx\n```\n>', 'extensions': ['fenced_code']}},
+    {'id': 'F-C10-8', 'property': 'C10', 'status': 'open',
+     'what': 'wikilinks: a blank label `[[ ]]` is replaced by an empty string that is stashed; when it is resolved two backtick runs join and a code span forms around an escape placeholder on the second visit (STX 42 ETX inside <code>)',
+     'witness': {'text': '*_`[[ ]]`` \\* ```_*', 'extensions': ['wikilinks']}},
 ]
 
 # ------------------------------------------------------------------ classification of a leaking output
@@ -113,6 +116,7 @@ def _drop_headless(work):
     return _TAILPH.sub(fix, work)
 
 
+_BLANKWIKI = re.compile(r'\[\[ +\]\]')
 _ABBRDIG = re.compile(r'[*]\[[ ]*[0-9]+[ ]*\][ ]?:')       # the definition may sit inside a list item, quote, admonition ...
 _ABBRLEAK = re.compile('%s(?:%s:)?<abbr title="[^"]*">[0-9]+</abbr>%s' % (STX, RAW, ETX))
 _FULL_INL = re.compile('%s%s:[0-9]{4}%s' % (STX, INL, ETX))
@@ -201,6 +205,13 @@ def classify(text, exts, out):
             if body != m.group(2): note('F-C10-4', 'escape-in-code')
             return m.group(1) + body + '</code>'
         work = _CODE.sub(fix_code, work)
+    # F-C10-8: wikilinks turns a blank label into a stashed empty string; backtick runs join around an escape placeholder
+    if ('wikilinks' in exts) and _BLANKWIKI.search(text) and '`' in text and '\\' in text:
+        def fix_code8(m):
+            body = _ESC.sub('', m.group(2))
+            if body != m.group(2): note('F-C10-8', 'escape-in-code-after-blank-wikilink')
+            return m.group(1) + body + '</code>'
+        work = _CODE.sub(fix_code8, work)
     # F-C10-5: complete inline placeholders left by inline raw HTML that encloses a link
     if _RAWBR.search(text):
         w2 = _FULL_INL.sub('', work)
@@ -211,7 +222,7 @@ def classify(text, exts, out):
         return None, shapes + ['unexplained:' + repr(work[max(0, m.start() - 25):m.end() + 25])]
     if not found:
         return None, shapes + ['toc-copy-only']
-    for fid in ('F-C10-1', 'F-C10-2', 'F-C10-3', 'F-C10-5', 'F-C10-4', 'F-C10-6', 'F-C10-7'):
+    for fid in ('F-C10-1', 'F-C10-2', 'F-C10-3', 'F-C10-5', 'F-C10-4', 'F-C10-6', 'F-C10-7', 'F-C10-8'):
         if fid in found:
             return fid, shapes
     return None, shapes
